@@ -60,6 +60,9 @@ Definition lookup_class (cs : list pclass) (n : string) : option pclass :=
 (* fields along the MRO: own fields override bases'; bases left to right (depth first).
    The result generator only emits single-level diamonds of fragment classes, for which this
    coincides with C3 linearisation; K2 checks it against real classes. *)
+Definition mro_merge (l bl : list pfield) : list pfield :=
+  l ++ filter (fun f => negb (existsb (fun g => String.eqb (p_name g) (p_name f)) l)) bl.
+
 Fixpoint mro_fields (fuel : nat) (cs : list pclass) (n : string) : option (list pfield) :=
   match fuel with
   | O => None
@@ -73,7 +76,7 @@ Fixpoint mro_fields (fuel : nat) (cs : list pclass) (n : string) : option (list 
             fold_left (fun acc b =>
               match acc, mro_fields fuel' cs b with
               | Some l, Some bl =>
-                  Some (l ++ filter (fun f => negb (existsb (fun g => String.eqb (p_name g) (p_name f)) l)) bl)
+                  Some (mro_merge l bl)
               | _, _ => None
               end) (c_bases c) (Some own)
         end
@@ -119,39 +122,47 @@ Definition class_accepts (rec : ann -> json -> bool) (fields : option (list pfie
   | _, _ => false
   end.
 
+(* discriminated on typename__: the first alternative whose literal contains tn *)
+Definition union_pick (mro : string -> option (list pfield)) (alts : list ann) (tn : string) : option ann :=
+  find (fun alt =>
+          match alt with
+          | AClass n =>
+              match mro n with
+              | Some fs => match typename_literal (last_wins fs) with
+                           | Some vs => mem tn vs | None => false end
+              | None => false
+              end
+          | _ => false
+          end) alts.
+
+(* class and union positions, given the per-class check [chk] (class_accepts / class_covers), the
+   checker [rec] for field values and the field table [mro] *)
+Definition cls_step (chk : (ann -> json -> bool) -> option (list pfield) -> json -> bool)
+           (rec : ann -> json -> bool) (mro : string -> option (list pfield)) (a : ann) (j : json) : bool :=
+  match a with
+  | AClass n => chk rec (mro n) j
+  | AUnion alts =>
+      match j with
+      | JObj kv =>
+          match jlookup "__typename" kv with
+          | Some (JStr tn) =>
+              match union_pick mro alts tn with
+              | Some (AClass n) => chk rec (mro n) j
+              | _ => false
+              end
+          | _ => false
+          end
+      | _ => false
+      end
+  | _ => false
+  end.
+
 Fixpoint accepts (fuel : nat) (cs : list pclass) (enums : list (string * list string)) (a : ann) (j : json)
   : bool :=
   match fuel with
   | O => false
   | S fuel' =>
-      acc_ann (fun a j =>
-        match a with
-        | AClass n => class_accepts (accepts fuel' cs enums) (mro_fields fuel' cs n) j
-        | AUnion alts =>
-            match j with
-            | JObj kv =>
-                match jlookup "__typename" kv with
-                | Some (JStr tn) =>
-                    (* discriminated on typename__: the first alternative whose literal contains tn *)
-                    match find (fun alt =>
-                            match alt with
-                            | AClass n =>
-                                match mro_fields fuel' cs n with
-                                | Some fs => match typename_literal (last_wins fs) with
-                                             | Some vs => mem tn vs | None => false end
-                                | None => false
-                                end
-                            | _ => false
-                            end) alts with
-                    | Some (AClass n) => class_accepts (accepts fuel' cs enums) (mro_fields fuel' cs n) j
-                    | _ => false
-                    end
-                | _ => false
-                end
-            | _ => false
-            end
-        | _ => false
-        end) enums a j
+      acc_ann (cls_step class_accepts (accepts fuel' cs enums) (mro_fields fuel' cs)) enums a j
   end.
 
 (* every key of the payload is a declared field of the class that validates it (necessary for the
@@ -178,32 +189,5 @@ Fixpoint cov_ann (clscov : ann -> json -> bool) (a : ann) (j : json) : bool :=
 Fixpoint covers (fuel : nat) (cs : list pclass) (a : ann) (j : json) : bool :=
   match fuel with
   | O => false
-  | S fuel' =>
-      cov_ann (fun a j =>
-        match a with
-        | AClass n => class_covers (covers fuel' cs) (mro_fields fuel' cs n) j
-        | AUnion alts =>
-            match j with
-            | JObj kv =>
-                match jlookup "__typename" kv with
-                | Some (JStr tn) =>
-                    match find (fun alt =>
-                            match alt with
-                            | AClass n =>
-                                match mro_fields fuel' cs n with
-                                | Some fs => match typename_literal (last_wins fs) with
-                                             | Some vs => mem tn vs | None => false end
-                                | None => false
-                                end
-                            | _ => false
-                            end) alts with
-                    | Some (AClass n) => class_covers (covers fuel' cs) (mro_fields fuel' cs n) j
-                    | _ => false
-                    end
-                | _ => false
-                end
-            | _ => false
-            end
-        | _ => false
-        end) a j
+  | S fuel' => cov_ann (cls_step class_covers (covers fuel' cs) (mro_fields fuel' cs)) a j
   end.
